@@ -6,11 +6,12 @@ BOUNDS = {"stack copy": "8..32 bytes (1-4 words), every byte symbolic", "sp_offs
           "principal mapping": "fully symbolic [lo, hi), lo < hi", "instruction pointer": "fully symbolic",
           "stack mapping (inclusion harness)": "start k<<12, 1..64 pages, rw"}
 OUTSIDE = ["copies shorter than one word (not produced by the readers: process_vm_readv/pread/PEEKDATA deliver whole pages/words of a page-aligned request)",
-           "the crash-thread reference test and the soft error in dump() (see C19/C11 skeleton harnesses)", "more than 4 stack words"]
+           "crash_thread_references_principal_mapping with a crash context (it copies the crash stack: not instantiated)", "more than 4 stack words"]
 ASSUMPTIONS = ["copy_from_process replaced by a contract stub returning min(len, N) arbitrary bytes (N = 16 or 24)",
                "std::fmt::format stubbed (message text is not the subject)"]
 L = {"extend_with": 40}
 HARNESSES = [
+    H("c19_dump::g_dump_principal_not_referenced", desc="skip enabled, principal address in no mapping, no crash context: PrincipalMappingNotReferenced soft error and the dump succeeds", loops={"MINIDUMP_EXCEPTION": 20, "alloc_from_array": 8}, timeout=2400, est_gb=8, mem_gb=24),
     H("c20_skip_stacks::c20_scan_len24_off0", desc="scan 3 words, offset 0"),
     H("c20_skip_stacks::c20_scan_len24_off3", desc="scan, unaligned offset 3 (rounds to 8)"),
     H("c20_skip_stacks::c20_scan_len24_off8", desc="scan, offset 8"),
